@@ -222,11 +222,18 @@ def finish(pid, tier, level, obligations, coverage, assumptions, t_start, seed):
     print(f'{pid} [{tier}] obligations={len(obligations)} hold={n_ok} violated={len(viol)} known={len(knownhit)} '
           f'inconclusive={len(incon)} wall={time.time()-t_start:.0f}s')
     sys.stdout.flush()
-    if viol:
-        sys.exit(1)
-    if incon:
-        sys.exit(2)
-    sys.exit(0)
+    sys.stderr.flush()
+    code = 1 if viol else 2 if incon else 0
+    # leave at once: worker pools and helper threads must not be able to delay (or hang) the exit once the verdict is printed
+    try:
+        import multiprocessing
+        for ch in multiprocessing.active_children():
+            ch.kill()
+    except Exception:
+        pass
+    if _scratch:
+        shutil.rmtree(_scratch, ignore_errors=True)
+    os._exit(code)
 
 
 # ------------------------------------------------------------------------------------------- replay tool
